@@ -57,6 +57,7 @@ type recorder struct {
 	faultK int // index of the call that must fail during the current op; -1 = none
 	calls  int // number of fault-countable calls made so far during the current op
 
+	extra     []string        // `X …` lines of the current op (app mode: the forged-signer probe)
 	failhooks map[string]bool // "<HookName>/<idx>" -> must fail during the current op (first call only)
 }
 
@@ -66,7 +67,7 @@ func newRecorder(e *Env) *recorder {
 
 // beginOp clears the log and installs the injections that are active during this op.
 func (r *recorder) beginOp(faultK int, failhooks map[string]bool) {
-	r.comments, r.events = nil, nil
+	r.comments, r.events, r.extra = nil, nil, nil
 	r.faultK = faultK
 	r.calls = 0
 	r.failhooks = map[string]bool{}
